@@ -30,8 +30,8 @@ import (
 
 func init() { registry["C20"] = runC20 }
 
-// runPar starts n goroutines behind one start gate and waits for all of them.
-func runPar(n int, fn func(i int)) {
+// c20RunPar starts n goroutines behind one start gate and waits for all of them.
+func c20RunPar(n int, fn func(i int)) {
 	var wg sync.WaitGroup
 	gate := make(chan struct{})
 	wg.Add(n)
@@ -100,7 +100,7 @@ func runC20(c *Ctx) {
 			os.WriteFile(filepath.Join(d, fmt.Sprintf("pfx%03d.sfx", e)), []byte(fmt.Sprintf("old%d", e)), 0o644)
 		}
 		names := make([]string, k)
-		runPar(k, func(i int) {
+		c20RunPar(k, func(i int) {
 			n, err := driver.VerifC20NewTempFile(d, "pfx", ".sfx")
 			if err != nil {
 				n = "ERR"
@@ -146,7 +146,7 @@ func runC20(c *Ctx) {
 	optCase := func(gen string, init int, threads [][][2]int) {
 		driver.VerifC20Set(init, "o"+strconv.Itoa(init))
 		res := make([][]Term, len(threads))
-		runPar(len(threads), func(i int) {
+		c20RunPar(len(threads), func(i int) {
 			for _, op := range threads[i] {
 				switch op[0] {
 				case 0:
@@ -197,6 +197,50 @@ func runC20(c *Ctx) {
 		optCase("options-random", c.R.Intn(9), th)
 	}
 
+	// ---- k goroutines configure DISTINCT options concurrently and each reads its own option back:
+	// configure is a read-modify-write of the whole option struct, so if it is not ONE critical
+	// section a concurrent writer of another field is overwritten (lost update) -- no data race needed
+	c20Fields := []string{"nodecount", "focus", "ignore", "hide", "show", "show_from", "tagfocus", "tagignore", "tagshow", "taghide"}
+	fieldCase := func(gen string, k, rounds int) {
+		driver.VerifC20Set(-1, "")
+		fields := c20Fields[:k]
+		val := func(i, j int) string {
+			if fields[i] == "nodecount" {
+				return strconv.Itoa(1000*(i+1) + j)
+			}
+			return "v" + strconv.Itoa(i) + "_" + strconv.Itoa(j)
+		}
+		flags := make([][]int64, k)
+		c20RunPar(k, func(i int) {
+			for j := 0; j < rounds; j++ {
+				v := val(i, j)
+				if err := driver.VerifC20Configure(fields[i], v); err != nil {
+					flags[i] = append(flags[i], -1)
+					continue
+				}
+				if driver.VerifC20GetField(fields[i]) == v {
+					flags[i] = append(flags[i], 1)
+				} else {
+					flags[i] = append(flags[i], 0)
+				}
+			}
+		})
+		final := make([]int64, k)
+		var per []Term
+		for i := range fields {
+			if driver.VerifC20GetField(fields[i]) == val(i, rounds-1) {
+				final[i] = 1
+			}
+			per = append(per, Zs(flags[i]))
+		}
+		c.Case(gen, L(S("fields"), Ss(fields), ZI(rounds)), L(L(per...), Zs(final)), k >= 2, "op:fields")
+		driver.VerifC20Set(-1, "")
+	}
+	fieldCase("fields-two-writers", 2, 50)
+	for n := 0; n < c.Budget(40, 600); n++ {
+		fieldCase("fields-random", 2+c.R.Intn(len(c20Fields)-1), 5+c.R.Intn(c.Budget(40, 200)))
+	}
+
 	// ---- Write / WriteUncompressed / Copy on one profile
 	serCase := func(gen string, p *profile.Profile, k int) {
 		before := Render(DumpProfile(p))
@@ -220,7 +264,7 @@ func runC20(c *Ctx) {
 		zr, _ := gzip.NewReader(bytes.NewReader(seqGz.Bytes()))
 		seqUnz, _ := io.ReadAll(zr)
 		flags := make([]int64, k)
-		runPar(k, func(i int) {
+		c20RunPar(k, func(i int) {
 			defer func() {
 				if r := recover(); r != nil {
 					flags[i] = -1
@@ -259,7 +303,7 @@ func runC20(c *Ctx) {
 	pipeCase := func(gen string, llvm bool, addrs []uint64) {
 		tool := binutils.VerifC20NewTool(llvm)
 		out := make([]Term, len(addrs))
-		runPar(len(addrs), func(i int) {
+		c20RunPar(len(addrs), func(i int) {
 			fr, err := tool.AddrInfo(addrs[i])
 			if err != nil || len(fr) != 1 {
 				msg := "frames=" + strconv.Itoa(len(fr))
@@ -323,7 +367,7 @@ func runC20(c *Ctx) {
 			continue
 		}
 		got := make([]Term, len(addrs))
-		runPar(len(addrs), func(i int) {
+		c20RunPar(len(addrs), func(i int) {
 			o, err := f.ObjAddr(addrs[i])
 			if err != nil {
 				got[i] = Z(-1)
@@ -346,7 +390,7 @@ func runC20(c *Ctx) {
 	for n := 0; n < c.Budget(4, 40); n++ {
 		bu := &binutils.Binutils{}
 		k := 4 + c.R.Intn(8)
-		runPar(k, func(i int) {
+		c20RunPar(k, func(i int) {
 			if i%2 == 0 {
 				bu.SetFastSymbolization(i%4 == 0)
 			} else {
@@ -367,13 +411,13 @@ func runC20(c *Ctx) {
 			names = append(names, fmt.Sprintf("cfg%03d", i))
 		}
 		ok := true
-		runPar(k, func(i int) {
+		c20RunPar(k, func(i int) {
 			if err := driver.VerifC20SaveConfig(fname, names[i]); err != nil {
 				ok = false
 			}
 		})
 		nrm := c.R.Intn(k)
-		runPar(nrm, func(i int) {
+		c20RunPar(nrm, func(i int) {
 			if err := driver.VerifC20RemoveConfig(fname, names[i]); err != nil {
 				ok = false
 			}
@@ -474,7 +518,7 @@ func runC20(c *Ctx) {
 			}
 		}
 		flags := make([]int64, kk)
-		runPar(kk+2, func(i int) {
+		c20RunPar(kk+2, func(i int) {
 			if i >= kk { // settings edits and option reads overlap the page requests
 				if i == kk && os.Getenv("VERIF_C20_RACE") != "" {
 					// only in the -race run: the menu of saved configs is part of every page, so a
